@@ -3,7 +3,8 @@ number in the decoders; Raw events non-empty; progress (no grammar accepts the e
 import re
 from ..mir import call_matches, callee_name, op_local, op_const_int
 from ..flow import expr, origins, resolve_place, arg_place, value_variants
-from .. import oblrules, grammar, regex
+from .. import oblrules, grammar, regex, obligations
+from .c15 import Terms, regions_over, strip_iter, ts as term_text, _last_seg
 
 CLAIM = {
     "text": "Totality of input decoding decided by abstract interpretation of MIR over every body reachable from the event, command and UTF-8 "
@@ -111,46 +112,107 @@ def run(ctx):
     if cap is None or ml is None or ml > cap:
         utf8_ok = False
         ctx.violation("LEMMA-UTF8-CAP", "decoder::Utf8Decoder", "capacity", "the UTF-8 automaton accepts words of up to %s bytes but Utf8Decoder.buffer holds %s" % (ml, cap), sites=[])
-    # writers of offset
-    writers = {}
-    for b in prog.bodies:
-        if not b.file.endswith("decoder.rs"):
-            continue
-        for i, si, s in b.assigns():
-            rp = resolve_place(b, s["place"])
-            if rp == "(*_1).offset" and b.impl_self == "decoder::Utf8Decoder":
-                writers.setdefault(b.path, []).append(rv_text(b, s))
-    exp_w = {"decoder::Utf8Decoder::push": ["Add(arg1.offset, 1)"], "decoder::Utf8Decoder::reset": ["0"]}
-    ctx.instance("LEMMA-UTF8-CAP", {"offset_writers": writers})
-    if writers != exp_w:
-        utf8_ok = False
-        ctx.violation("LEMMA-UTF8-CAP", "decoder::Utf8Decoder", "offset-writers", "Utf8Decoder.offset is written other than by push (+1) and reset (=0): %s" % writers, sites=[])
-    # reset also resets the state; consume calls reset
-    rb = prog.body("decoder::Utf8Decoder::reset")
-    cb = prog.body("decoder::Utf8Decoder::consume")
+    # The protocol is decided on *events*, wherever the statements live (decode itself, push/reset/consume, or any other helper of Utf8Decoder):
+    #   W0  self.offset = 0            W1  self.offset = self.offset + 1      S0  self.state = <dfa>.start()     S1  self.state = <transition result>
+    # Helpers are summarised (may increment / must reset) and decode is looked at with its single-caller helpers expanded.
+    U8 = "decoder::Utf8Decoder"
     db = prog.one(r"^<decoder::Utf8Decoder as decoder::Decoder>::decode$")
-    if not (rb and cb and db):
+    methods = [b for b in prog.bodies if b.file.endswith("decoder.rs") and (b.impl_self == U8 or (b.closure_root and (prog.body(b.closure_root) is not None and prog.body(b.closure_root).impl_self == U8)))]
+
+    def events(b, view=None):
+        """(bb, kind, text) for every write to self.offset / self.state in body b; kind in W0 W1 S0 S1 W? S?"""
+        v = view or b
+        out = []
+        for i, si, st in v.assigns():
+            rp = resolve_place(v, st["place"])
+            if rp == "(*_1).offset":
+                e = rv_text(v, st)
+                out.append((i, "W0" if e == "0" else "W1" if e in ("Add(arg1.offset, 1)", "Add(1, arg1.offset)") else "W?", e))
+            elif rp == "(*_1).state":
+                e = rv_text(v, st)
+                out.append((i, "S0" if re.fullmatch(r"DFA::start\(.*\)", e) else "S1" if re.fullmatch(r"DFA::transition\(.*\)@Some\.0", e) else "S?", e))
+            elif st["rv"]["k"] == "ref" and st["rv"].get("mut") and resolve_place(v, st["rv"]["place"]) in ("(*_1).offset", "(*_1).state"):
+                out.append((i, "W?", "&mut " + resolve_place(v, st["rv"]["place"])))
+        return out
+    writers = {}
+    bad_writes = []
+    for b in methods:
+        if b.kind == "Closure":
+            # a closure inside a method: writes through captures are not followed - none must mention the fields
+            for bb, t in b.calls():
+                pass
+            continue
+        for bb, kind, e in events(b):
+            writers.setdefault(b.path, []).append(e)
+            if kind in ("W?", "S?") or (kind == "S1" and (db is None or b.path != db.path)):
+                bad_writes.append((b.path, e))
+    ctx.instance("LEMMA-UTF8-CAP", {"offset_state_writers": writers})
+    if bad_writes or not any(k == "W1" for b in methods if b.kind != "Closure" for _, k, _ in events(b)):
         utf8_ok = False
-        ctx.anchor("LEMMA-UTF8-CAP", "Utf8Decoder::{reset,consume,decode}")
+        ctx.violation("LEMMA-UTF8-CAP", "decoder::Utf8Decoder", "offset-writers", "Utf8Decoder.offset / .state are written other than by `offset = 0`, `offset += 1`, `state = dfa.start()` "
+                      "and `state = <transition result>` in decode: %s" % (bad_writes or writers), sites=[])
+    # helper summaries (non-recursive methods taking self as first argument)
+    summ = {}
+
+    def summary(b, stack=()):
+        """{'inc': may perform W1, 'w0': every path performs W0, 's0': every path performs S0}"""
+        if b.path in summ:
+            return summ[b.path]
+        if b.path in stack:
+            return {"inc": True, "w0": False, "s0": False}
+        ev = events(b)
+        sites = {"W1": [], "W0": [], "S0": []}
+        for bb, k, e in ev:
+            if k in sites:
+                sites[k].append(bb)
+        inc = bool(sites["W1"])
+        for bb, t in b.calls():
+            cb = prog.body(callee_name(t) or "")
+            if cb is not None and cb.impl_self == U8 and cb.kind != "Closure" and t["args"] and expr(b, t["args"][0]) == "arg1":
+                cs = summary(cb, stack + (b.path,))
+                inc = inc or cs["inc"]
+                if cs["w0"]:
+                    sites["W0"].append(bb)
+                if cs["s0"]:
+                    sites["S0"].append(bb)
+        cfg_ = b.cfg()
+        r = {"inc": inc, "w0": bool(sites["W0"]) and cfg_.must_pass(sites["W0"])[0], "s0": bool(sites["S0"]) and cfg_.must_pass(sites["S0"])[0]}
+        summ[b.path] = r
+        return r
+    if db is None:
+        utf8_ok = False
+        ctx.anchor("LEMMA-UTF8-CAP", "Utf8Decoder::decode")
     else:
-        st_w = [rv_text(rb, s) for i, si, s in rb.assigns() if resolve_place(rb, s["place"]) == "(*_1).state"]
-        ok_r = any("DFA::start" in x for x in st_w)
-        ok_c = any(call_matches(t, r"^decoder::Utf8Decoder::reset$") for bb, t in cb.calls()) and cb.cfg().must_pass([bb for bb, t in cb.calls() if call_matches(t, r"^decoder::Utf8Decoder::reset$")])[0]
-        ctx.instance("LEMMA-UTF8-CAP", {"reset_restarts_dfa": ok_r, "consume_calls_reset": ok_c})
-        if not ok_r or not ok_c:
-            utf8_ok = False
-            ctx.violation("LEMMA-UTF8-CAP", "decoder::Utf8Decoder", "reset", "reset must restart the DFA and consume must reset: otherwise offset and DFA path length diverge", sites=[rb.loc])
-        # in decode: push only on Some(state) edges of transition; on None reset before return; each pushed byte either updates state or consumes
-        cfg = db.cfg()
-        tr = [(bb, t) for bb, t in db.calls() if call_matches(t, r"^automata::DFA::<T>::transition$")]
-        pushes = [(bb, t) for bb, t in db.calls() if call_matches(t, r"^decoder::Utf8Decoder::push$")]
-        resets = [bb for bb, t in db.calls() if call_matches(t, r"^decoder::Utf8Decoder::reset$")]
-        consumes = [bb for bb, t in db.calls() if call_matches(t, r"^decoder::Utf8Decoder::consume$")]
-        ok_d = len(tr) == 1 and bool(pushes)
+        dv = prog.inlined(db.path) or db
+        cfg = dv.cfg()
+        tr = [(bb, t) for bb, t in dv.calls() if call_matches(t, r"^automata::DFA::<T>::transition$")]
+        sites = {"W1": [], "W0": [], "S0": [], "S1": []}
+        for bb, k, e in events(db, dv):
+            if k in sites:
+                sites[k].append(bb)
+        helper_calls = {}
+        for bb, t in dv.calls():
+            cb = prog.body(callee_name(t) or "")
+            if cb is not None and cb.impl_self == U8 and cb.kind != "Closure" and cb.path != db.path and t["args"] and expr(dv, t["args"][0]) == "arg1":
+                cs = summary(cb)
+                helper_calls.setdefault(cb.path, []).append(bb)
+                if cs["inc"]:
+                    sites["W1"].append(bb)
+                if cs["w0"]:
+                    sites["W0"].append(bb)
+                if cs["s0"]:
+                    sites["S0"].append(bb)
+        # helpers that were expanded in the view: the block that jumps into the expansion is their call site
+        for bb, blk in enumerate(dv.blocks):
+            hp = blk["term"].get("inl_call")
+            hb_ = prog.body(hp) if hp else None
+            if hb_ is not None and hb_.impl_self == U8 and not blk["cleanup"]:
+                helper_calls.setdefault(hp, []).append(bb)
+        ok_d = len(tr) == 1 and bool(sites["W1"])
         if ok_d:
             tbb, tt = tr[0]
             # the switch on the transition result
-            sw = db.blocks[tt["t"]]
+            sw = dv.blocks[tt["t"]]
             swt = sw["term"]
             none_t = some_t = None
             if swt["k"] == "switch":
@@ -163,48 +225,83 @@ def run(ctx):
                     some_t = swt["otherwise"]
                 if none_t is None:
                     none_t = swt["otherwise"]
-            ok_d = some_t is not None and all(cfg.edge_dominates(tt["t"], some_t, pb) for pb, _ in pushes)
-            # dead transition: reset before leaving
-            ok_n = none_t is not None and cfg.must_pass(resets, start=none_t)[0]
-            # after a push: either state is stored or consume is called, before the next transition / return
+            # a byte is counted only after a live transition ...
+            ok_d = some_t is not None and all(cfg.edge_dominates(tt["t"], some_t, pb) for pb in sites["W1"])
+            # ... a dead transition resets offset and state before leaving ...
+            ok_n = none_t is not None and bool(sites["W0"]) and bool(sites["S0"]) and cfg.must_pass(sites["W0"], start=none_t)[0] and cfg.must_pass(sites["S0"], start=none_t)[0]
+            # ... and after counting a byte the state advances to the transition's result, or everything is reset (accept), before the next byte / return
             ok_p = True
-            for pb, pt in pushes:
-                stw = [i for i, si, s in db.assigns() if resolve_place(db, s["place"]) == "(*_1).state"]
-                ok_p = ok_p and cfg.must_pass(set(stw) | set(consumes), start=pb, exits=[tbb] + cfg.returns)[0]
-            ctx.instance("LEMMA-UTF8-CAP", {"push_only_after_live_transition": ok_d, "dead_transition_resets": ok_n, "push_then_state_or_consume": ok_p})
+            for pb in sites["W1"]:
+                ok_p = ok_p and cfg.must_pass(set(sites["S1"]) | set(sites["W0"]), start=pb, exits=[tbb] + cfg.returns)[0] \
+                    and cfg.must_pass(set(sites["S1"]) | set(sites["S0"]), start=pb, exits=[tbb] + cfg.returns)[0]
+            ctx.instance("LEMMA-UTF8-CAP", {"count_only_after_live_transition": ok_d, "dead_transition_resets": ok_n, "count_then_advance_or_reset": ok_p,
+                                            "helpers": {k: summ.get(k) for k in sorted(helper_calls)}})
             if not (ok_d and ok_n and ok_p):
                 utf8_ok = False
                 ctx.violation("LEMMA-UTF8-CAP", db.path, "protocol", "Utf8Decoder::decode does not keep offset equal to the length of the current DFA path (push after live transition / reset on dead / state-or-consume after push)", sites=[db.loc])
         else:
             utf8_ok = False
             ctx.anchor("LEMMA-UTF8-CAP", "decode/transition-or-push")
-    if utf8_ok and cap is not None:
-        entry_facts["decoder::Utf8Decoder::push"] = {"fields": {"(*_1).offset": (0, min(ml, cap) - 1)}}
-        entry_facts["decoder::Utf8Decoder::consume"] = {"fields": {"(*_1).offset": (1, min(ml, cap))}}
+        if utf8_ok and cap is not None and len(tr) == 1 and some_t is not None:
+            # facts at the entry of each helper, from where it is called: before the byte of a live transition is counted offset <= maxlen-1;
+            # once it has been counted (and before a reset) offset >= 1; anywhere offset <= maxlen <= capacity
+            top = min(ml, cap)
+            for hp, bbs in helper_calls.items():
+                before = all(cfg.edge_dominates(tr[0][1]["t"], some_t, hb_) and not any(hb_ in cfg.reachable_from(pb, removed=[tr[0][0]]) and hb_ != pb for pb in sites["W1"]) for hb_ in bbs)
+                after = all(cfg.edge_dominates(tr[0][1]["t"], some_t, hb_) and cfg.must_pass([pb for pb in sites["W1"] if pb != hb_], start=some_t, exits=[hb_])[0]
+                            and not any(hb_ in cfg.reachable_from(rb_, removed=[tr[0][0]]) and hb_ != rb_ for rb_ in sites["W0"]) for hb_ in bbs)
+                hbody = prog.body(hp)
+                direct_inc = hbody is not None and any(k == "W1" for _, k, _ in events(hbody))
+                if before and direct_inc:
+                    entry_facts[hp] = {"fields": {"(*_1).offset": (0, top - 1)}}
+                elif after:
+                    entry_facts[hp] = {"fields": {"(*_1).offset": (1, top)}}
+                else:
+                    entry_facts[hp] = {"fields": {"(*_1).offset": (0, top)}}
+            # decode itself: offset <= maxlen at entry (class invariant); a store `self.buffer[self.offset] = ..` written directly in decode (push
+            # inlined by hand) is in bounds where the byte of a live transition has not been counted yet
+            entry_facts[db.path] = {"fields": {"(*_1).offset": (0, top)}}
+            TU = Terms(prog)
+            dobs = [o for o in obligations.collect(db, lossy=True) if not o.exp]
+            dkeys = oblrules.site_keys(dobs)
+            for o in dobs:
+                m = o.term.get("msg") if isinstance(o.term, dict) else None
+                if o.kind != "BOUNDS" or not m:
+                    continue
+                if TU.of(db, m["index"]) == ("f", ("arg", 1), "offset") and TU.of(db, m["len"]) == ("c", str(cap)) and top <= cap:
+                    legal = cfg.edge_dominates(tr[0][1]["t"], some_t, o.bb) and not any(o.bb in cfg.reachable_from(pb, removed=[tr[0][0]]) and o.bb != pb for pb in sites["W1"])
+                    if legal:
+                        lemmas[(db.path, dkeys[id(o)])] = ("UTF8-CAP", "offset is the length of the DFA path before the byte of this live transition is counted: <= maxlen-1 < capacity")
+            ctx.instance("LEMMA-UTF8-CAP", {"helper_entry_facts": {k: v["fields"] for k, v in entry_facts.items() if k.startswith(U8) or k == db.path}})
 
     # TAGGED-ACCEPT: every accepting state of the two decoder automata carries a tag, Matcher(i) has i < #matchers
     ctx.rule("LEMMA-TAGGED-ACCEPT", "accepting states of the decoder automata are tagged; Matcher(index) comes from enumerate() over the stored matchers", floor=3)
     tagged_ok = True
     nb = prog.one(r"^decoder::MatcherAutomata::<T>::new$")
-    ncl = prog.one(r"^decoder::MatcherAutomata::<T>::new::\{closure#0\}$")
-    if nb is None or ncl is None:
+    if nb is None:
         tagged_ok = False
         ctx.anchor("LEMMA-TAGGED-ACCEPT", "MatcherAutomata::new")
     else:
-        # closure: tag_stop_state(Matcher(index)) with index = closure argument .0 on the Left edge
-        tss = [(bb, t) for bb, t in ncl.calls() if call_matches(t, r"automata::NFA::<T>::tag_stop_state$")]
-        ok1 = False
-        for bb, t in tss:
-            e = expr(ncl, t["args"][1])
-            ok1 = ok1 or bool(re.match(r"^MatcherTag::Matcher\(arg2\.0\)$", e))
-        # new: the vector enumerated is the one stored in `matchers`
-        lits = [s for i, si, s in nb.assigns() if s["rv"]["k"] == "agg" and s["rv"].get("adt") == "decoder::MatcherAutomataInner"]
-        ok2 = False
+        # The vector stored in `matchers` is traversed with enumerate() (closure of an iterator adaptor, or a loop - wherever the code lives after
+        # helper expansion) and inside that per-element region the stop state is tagged Matcher(<the element's enumeration index>).
+        TT = Terms(prog)
+        nv = prog.inlined(nb.path) or nb
+        lits = [s for i, si, s in nv.assigns() if s["rv"]["k"] == "agg" and s["rv"].get("adt") == "decoder::MatcherAutomataInner"]
+        ok1 = ok2 = False
+        found = []
         if len(lits) == 1:
             f = dict(zip(lits[0]["rv"]["fnames"], lits[0]["rv"]["fields"]))
-            me = expr(nb, f["matchers"])
-            en = [expr(nb, t["args"][0]) for bb, t in nb.calls() if call_matches(t, r"Iterator::enumerate$")]
-            ok2 = any(me in x or x.startswith("slice::iter") and me.split("(")[0] in x for x in en) or any(_same_vec(nb, f["matchers"], t) for bb, t in nb.calls() if call_matches(t, r"slice::<impl \[T\]>::iter$"))
+            stored = TT.of(nv, f["matchers"])
+            regs_ = [r for r in regions_over(TT, nv, lambda c: c == stored, allow_enumerate=True) if r.elem[1]]
+            ok2 = bool(regs_)
+            for r in regs_:
+                rb_ = prog.inlined(r.body.path) or r.body if r.body is not nv else nv
+                for bb, t in rb_.calls():
+                    if call_matches(t, r"automata::NFA::<T>::tag_stop_state$") and len(t["args"]) == 2 and (r.body is not nv or bb in r.blocks):
+                        tg = TT.of(rb_, t["args"][1], r.cx)
+                        found.append(term_text(tg, 80))
+                        if tg[0] == "agg" and tg[1] == "MatcherTag::Matcher" and tg[2] == (TT.field(r.elem[0], "0"),):
+                            ok1 = True
         # every alternative of both automata has tags on accepting states (E2)
         ok3 = True
         try:
@@ -219,7 +316,7 @@ def run(ctx):
                         ok3 = ok3 and bool(gg.table) and all(tag for _, tag in gg.table)
         except Exception:
             ok3 = False
-        ctx.instance("LEMMA-TAGGED-ACCEPT", {"closure_tags_stop_with_enumerate_index": ok1})
+        ctx.instance("LEMMA-TAGGED-ACCEPT", {"closure_tags_stop_with_enumerate_index": ok1, "tags": found[:4]})
         ctx.instance("LEMMA-TAGGED-ACCEPT", {"enumerated_vector_is_stored_matchers": ok2})
         ctx.instance("LEMMA-TAGGED-ACCEPT", {"table_alternatives_tag_every_entry": ok3})
         tagged_ok = ok1 and ok2 and ok3
@@ -251,7 +348,6 @@ def run(ctx):
 
     # GRAM-EVENHEX + CHUNKS-NONEMPTY
     ctx.rule("LEMMA-GRAM-EVENHEX", "hex runs inside a TermCap payload have even length; hex_decode is reached only from TermCapMatcher::decode", floor=2)
-    hx = "decoder::hex_decode::{closure#1}"
     try:
         even, wit = grammar.termcap_hex_runs_even(src)
     except Exception as e:
@@ -264,13 +360,37 @@ def run(ctx):
     ctx.instance("LEMMA-GRAM-EVENHEX", {"even": even, "witness": repr(wit)})
     ctx.instance("LEMMA-GRAM-EVENHEX", {"hex_decode_callers_in_reach": callers, "ok": ok_callers})
     hb = prog.body("decoder::hex_decode")
-    chunk2 = hb is not None and any(call_matches(t, r"slice::<impl \[T\]>::chunks$") and op_const_int(t["args"][1]) == 2 for bb, t in hb.calls())
-    if even and ok_callers and chunk2:
-        lemmas[(hx, "BOUNDS-Index-2")] = ("GRAM-EVENHEX", "chunks(2) of an even-length hex run always has 2 elements")
-    else:
+    # the per-chunk code - closure of an adaptor over `slice.chunks(2)` or the body of a loop over it - wherever it is: `chunk[0]` needs a
+    # non-empty chunk (std), `chunk[1]` a full one (even length of the hex run, from the grammar); with chunks_exact(2) both are std facts
+    TT = Terms(prog)
+    chunk_sites = []
+    if hb is not None:
+        arg_slice = ("arg", 1)
+        is_chunks = lambda c: c[0] == "call" and c[1] in ("chunks", "chunks_exact") and len(c[2]) == 2 and c[2][0] == arg_slice and c[2][1] == ("c", "2")
+        for r in regions_over(TT, hb, is_chunks):
+            cont = strip_iter(TT.of(hb, hb.blocks[r.site_bb]["term"]["args"][0]))[0]
+            exact = cont[1] == "chunks_exact"
+            obs = [o for o in obligations.collect(r.body, lossy=True) if not o.exp]
+            keys = oblrules.site_keys(obs)
+            E = r.elem[0]
+            for o in obs:
+                m = o.term.get("msg") if isinstance(o.term, dict) else None
+                if o.kind != "BOUNDS" or not m or (r.body is hb and o.bb not in r.blocks):
+                    continue
+                ln, ix = TT.of(r.body, m["len"], r.cx), TT.of(r.body, m["index"], r.cx)
+                if ln in (("un", "PtrMetadata", E), ("call", "len", (E,))) and ix in (("c", "0"), ("c", "1")):
+                    chunk_sites.append((r.body.path, keys[id(o)], int(ix[1]), exact))
+    chunk2 = bool(chunk_sites)
+    ctx.instance("LEMMA-GRAM-EVENHEX", {"chunk_index_sites": [(p_, k_, i_) for p_, k_, i_, x_ in chunk_sites]})
+    for p_, k_, i_, exact in chunk_sites:
+        if i_ == 0:
+            lemmas[(p_, k_)] = ("CHUNKS-NONEMPTY", "std: slice::chunks never yields an empty chunk")
+        elif exact:
+            lemmas[(p_, k_)] = ("CHUNKS-NONEMPTY", "std: slice::chunks_exact(2) yields chunks of exactly 2 elements")
+        elif even and ok_callers:
+            lemmas[(p_, k_)] = ("GRAM-EVENHEX", "chunks(2) of an even-length hex run always has 2 elements")
+    if not (even and ok_callers and chunk2):
         ctx.note("GRAM-EVENHEX not available: even=%s callers=%s chunks(2)=%s" % (even, callers, chunk2))
-    if chunk2:
-        lemmas[(hx, "BOUNDS-Index-1")] = ("CHUNKS-NONEMPTY", "std: slice::chunks never yields an empty chunk")
 
     # DFA-DENSE (trusted)
     for p in ("automata::DFA::<T>::transition", "automata::DFA::<T>::info"):
@@ -279,8 +399,62 @@ def run(ctx):
     # demanded bits: KeyMod::from_bits masks its argument
     fb = prog.body("keys::KeyMod::from_bits")
     if fb is not None and re.search(r"BitAnd\(arg1, ", expr(fb, {"k": "copy", "place": {"l": 0, "p": []}})):
-        lemmas[("<decoder::KittyKeyboardMatcher as decoder::Matcher>::decode", "LOSSY-usize-as-u32-1")] = (
-            "DEMANDED-BITS", "the truncated value is only passed to KeyMod::from_bits which masks it: low bits are unchanged by the truncation")
+        # every narrowing-to-u32 cast (in the decoders) whose result goes nowhere but into KeyMod::from_bits(..) - found by use, not by position
+        for b in prog.bodies:
+            if not b.file.endswith("decoder.rs"):
+                continue
+            obs = [o for o in obligations.collect(b, lossy=True) if not o.exp]
+            if not any(o.kind == "LOSSY" and o.sub.endswith("-as-u32") for o in obs):
+                continue
+            keys = oblrules.site_keys(obs)
+            for o in obs:
+                if o.kind != "LOSSY" or not o.sub.endswith("-as-u32") or o.stmt_index is None:
+                    continue
+                st = b.blocks[o.bb]["stmts"][o.stmt_index]
+                if st.get("k") != "assign" or st["place"]["p"]:
+                    continue
+                d = st["place"]["l"]
+                uses = _mentions(b, d) - 1          # minus the definition itself
+                into = [t for bb, t in b.calls() if call_matches(t, r"^keys::KeyMod::from_bits$") and len(t["args"]) == 1 and op_local(t["args"][0]) == d]
+                if uses == len(into) == 1:
+                    lemmas[(b.path, keys[id(o)])] = ("DEMANDED-BITS", "the truncated value is only passed to KeyMod::from_bits which masks it: low bits are unchanged by the truncation")
+
+    # ASCII class guards: `x - C` (also through the `&u8 - u8` operator impl) cannot underflow where a test `x.is_ascii_digit()` /
+    # is_ascii_lowercase / is_ascii_uppercase / is_ascii_hexdigit / is_ascii_alphabetic holds on the dominating edge and C <= the least member of the class.
+    # (the abstract interpreter has no summary for these std predicates; decided here on value terms + edge dominance)
+    ASCII_MIN = {"is_ascii_digit": 48, "is_ascii_hexdigit": 48, "is_ascii_uppercase": 65, "is_ascii_lowercase": 97, "is_ascii_alphabetic": 65, "is_ascii_alphanumeric": 48,
+                 "is_ascii_graphic": 33, "is_ascii_punctuation": 33}
+    TA = Terms(prog)
+    for b in prog.bodies:
+        if not b.file.endswith("decoder.rs") or not any(_last_seg(callee_name(t)) in ASCII_MIN for bb, t in b.calls()):
+            continue
+        cxa = _closure_cx(prog, TA, b) if b.kind == "Closure" else None
+        obs = [o for o in obligations.collect(b, lossy=True) if not o.exp]
+        keys = oblrules.site_keys(obs)
+        cfg_ = b.cfg()
+        for o in obs:
+            if o.kind != "OVF" or not o.sub.startswith("Sub") or not isinstance(o.term, dict):
+                continue
+            if o.term.get("k") == "call" and len(o.term["args"]) == 2:
+                x, c = TA.of(b, o.term["args"][0], cxa), TA.of(b, o.term["args"][1], cxa)
+            elif isinstance(o.term.get("msg"), dict) and "a" in o.term["msg"]:
+                x, c = TA.of(b, o.term["msg"]["a"], cxa), TA.of(b, o.term["msg"]["b"], cxa)
+            else:
+                continue
+            if c[0] != "c" or not re.fullmatch(r"\d+", c[1]):
+                continue
+            for sb, t in b.terms():
+                if t["k"] != "switch":
+                    continue
+                cond = TA.of(b, t["d"], cxa)
+                neg = False
+                while cond[0] == "un" and cond[1] == "Not":
+                    cond, neg = cond[2], not neg
+                if cond[0] == "call" and cond[1] in ASCII_MIN and cond[2] == (x,) and int(c[1]) <= ASCII_MIN[cond[1]]:
+                    want = "0" if neg else "1"
+                    tgt = [tg for vv, tg in zip(t["vals"], t["targets"]) if str(vv) == want] or ([t["otherwise"]] if len(t["vals"]) == 1 and str(t["vals"][0]) != want else [])
+                    if len(tgt) == 1 and cfg_.edge_dominates(sb, tgt[0], o.bb):
+                        lemmas[(b.path, keys[id(o)])] = ("ASCII-CLASS", "%s(x) holds on the dominating edge, so x >= %d >= %s" % (cond[1], ASCII_MIN[cond[1]], c[1]))
 
     # ---------------- (a) obligations -------------------------------------------------------------------------
     def scope(b):
@@ -295,31 +469,152 @@ def run(ctx):
         clippyxref.run(ctx, "CLIPPY-XREF", [prog.body(p) for p in sorted(dyn) if prog.body(p) is not None])
 
     # ---------------- (b) Raw non-empty ---------------------------------------------------------------------------
+    # Decided on value terms: the bytes that go into Raw(..) are some vector X; a test that implies `X is not empty` (`!X.is_empty()`,
+    # `X.len() != 0`, `X.len() > 0`, `0 < X.len()`, `X.len() >= 1`, ..., in either polarity) dominates the construction on its "non-empty" edge.
     ctx.rule("RAW-NONEMPTY", "Raw(..) events are constructed only where `reject.is_empty()` is false", floor=2)
+    TT = Terms(prog)
+    RAW_ADTS = ("terminal::TerminalEvent", "terminal::TerminalCommand")
+    STRIP = ("into_vec", "to_vec", "into", "from", "collect", "into_iter", "iter", "as_slice", "into_boxed_slice")
+
+    def guarded_nonempty(b, cx, operand, at_bb):
+        """the bytes held by `operand` are non-empty whenever block at_bb runs: a test implying it dominates at_bb on its non-empty edge"""
+        payload = TT.of(b, operand, cx)
+        while payload[0] == "call" and payload[1] in STRIP and len(payload[2]) == 1:
+            payload = payload[2][0]
+        cfg = b.cfg()
+        for sb, t in b.terms():
+            if t["k"] != "switch":
+                continue
+            v = nonempty_value(TT.of(b, t["d"], cx), payload)
+            if v is None:
+                continue
+            tgt = [tg for vv, tg in zip(t["vals"], t["targets"]) if str(vv) == v]
+            if not tgt and len(t["vals"]) == 1:
+                tgt = [t["otherwise"]]
+            if len(tgt) == 1 and cfg.edge_dominates(sb, tgt[0], at_bb):
+                return True, payload
+        return False, payload
+
+    def some_only_nonempty(g, depth=0):
+        """g returns Option<bytes>: every Some(..) it can return holds non-empty bytes (None otherwise)"""
+        if g is None or depth > 3 or g.kind not in ("Fn", "AssocFn"):
+            return False
+        seen, work, ok, n_some = set(), [0], True, 0
+        while work and ok:
+            l = work.pop()
+            if l in seen:
+                continue
+            seen.add(l)
+            for bb, si, rv in g.defs_of(l):
+                if si == "term":
+                    ok = False
+                elif rv["k"] == "agg" and rv.get("variant") == "None":
+                    pass
+                elif rv["k"] == "agg" and rv.get("variant") == "Some" and len(rv["fields"]) == 1:
+                    n_some += 1
+                    ok = ok and guarded_nonempty(g, None, rv["fields"][0], bb)[0]
+                elif rv["k"] == "use" and op_local(rv["a"]) is not None:
+                    work.append(op_local(rv["a"]))
+                else:
+                    ok = False
+        return ok and n_some > 0
     n = 0
     for b in prog.bodies:
         if not b.file.endswith("decoder.rs"):
             continue
-        cfg = None
+        cx = _closure_cx(prog, TT, b) if b.kind == "Closure" else None
+        # (1) Raw(bytes) written as an aggregate
         for i, si, s in b.assigns():
             rv = s["rv"]
-            if rv["k"] == "agg" and rv.get("variant") == "Raw" and rv.get("adt") in ("terminal::TerminalEvent", "terminal::TerminalCommand"):
+            if rv["k"] == "agg" and rv.get("variant") == "Raw" and rv.get("adt") in RAW_ADTS and rv["fields"]:
                 n += 1
-                cfg = cfg or b.cfg()
-                ok = False
-                for sb, t in b.terms():
-                    if t["k"] != "switch":
-                        continue
-                    e = expr(b, t["d"])
-                    if re.search(r"(is_empty\(|Eq\(.*len\(.*, 0\))", e) and t["vals"] == ["0"]:
-                        # false edge = not empty
-                        if cfg.edge_dominates(sb, t["targets"][0], i):
-                            ok = True
-                ctx.instance("RAW-NONEMPTY", {"fn": b.path, "adt": rv["adt"], "guarded": ok})
+                ok, payload = guarded_nonempty(b, cx, rv["fields"][0], i)
+                ctx.instance("RAW-NONEMPTY", {"fn": b.path, "adt": rv["adt"], "bytes": term_text(payload, 80), "guarded": ok})
                 if not ok:
                     ctx.violation("RAW-NONEMPTY", b.path, rv["adt"].split("::")[-1], "a Raw item is constructed without the `!reject.is_empty()` guard: empty raw events could be emitted", sites=["%s:%d" % (b.file, s["line"])])
+        # (2) the constructor applied through Option::map: `bytes_opt.map(TerminalEvent::Raw)` - bytes_opt must be Some only of non-empty bytes
+        for bb, t in b.calls():
+            ctor = [a for a in t["args"] if a["k"] == "const" and "fn" in a["c"] and re.fullmatch(r"terminal::(TerminalEvent|TerminalCommand)::Raw", a["c"]["fn"].get("path") or "")]
+            if not ctor:
+                continue
+            n += 1
+            adt = ctor[0]["c"]["fn"]["path"].rsplit("::", 1)[0]
+            ok = False
+            src_term = None
+            if call_matches(t, r"Option::<T>::map$") and len(t["args"]) == 2:
+                src_term = TT.of(b, t["args"][0], cx)
+                l = op_local(t["args"][0])
+                ds = b.defs_of(l) if l is not None else []
+                if len(ds) == 1 and ds[0][1] == "term":
+                    ok = some_only_nonempty(prog.body(callee_name(ds[0][2]) or ""))
+            ctx.instance("RAW-NONEMPTY", {"fn": b.path, "adt": adt, "bytes": term_text(src_term, 80) if src_term else None, "guarded": ok, "form": "Option::map(ctor)"})
+            if not ok:
+                ctx.violation("RAW-NONEMPTY", b.path, adt.split("::")[-1], "a Raw item is built from bytes that are not known to be non-empty (constructor applied to %s)" % (term_text(src_term, 80) if src_term else "?"),
+                              sites=["%s:%d" % (b.file, t["line"])])
     if n == 0:
         ctx.anchor("RAW-NONEMPTY", "Raw-constructions")
+
+
+def nonempty_value(cond, x):
+    """the switch value ("0"/"1") of boolean term `cond` on which the container term x is known to be non-empty; None if cond says nothing about it"""
+    neg = False
+    while cond[0] == "un" and cond[1] == "Not":
+        cond, neg = cond[2], not neg
+    res = None
+    if cond == ("call", "is_empty", (x,)):
+        res = "0"
+    elif cond[0] == "bin":
+        op, a, c = cond[1], cond[2], cond[3]
+        ln = ("call", "len", (x,))
+        k = lambda t: int(t[1]) if t[0] == "c" and re.fullmatch(r"\d+", t[1]) else None
+        if a == ln and k(c) is not None:
+            res = {("Eq", 0): "0", ("Ne", 0): "1", ("Gt", 0): "1", ("Ge", 1): "1", ("Lt", 1): "0", ("Le", 0): "0"}.get((op, k(c)))
+        elif c == ln and k(a) is not None:
+            res = {("Eq", 0): "0", ("Ne", 0): "1", ("Lt", 0): "1", ("Le", 1): "1", ("Gt", 1): "0", ("Ge", 0): "0"}.get((op, k(a)))
+    if res is None:
+        return None
+    return res if not neg else ("1" if res == "0" else "0")
+
+
+def _closure_cx(prog, TT, cb):
+    """term context of a closure body: captures as terms of the body that creates it"""
+    parent = prog.body(cb.j.get("closure_parent") or "")
+    if parent is None:
+        return {"caps": (), "params": {}}
+    pcx = _closure_cx(prog, TT, parent) if parent.kind == "Closure" else None
+    for i, si, s in parent.assigns():
+        rv = s["rv"]
+        if rv["k"] == "agg" and rv.get("ak") == "closure" and rv.get("def") == cb.path:
+            return {"caps": tuple(TT.of(parent, f, pcx) for f in rv["fields"]), "params": {}}
+    return {"caps": (), "params": {}}
+
+
+def _mentions(body, l):
+    """number of places in the body (statements and terminators, storage markers excluded) whose base is local l"""
+    n = 0
+
+    def walk(x):
+        nonlocal n
+        if isinstance(x, dict):
+            if "l" in x and "p" in x and x["l"] == l:
+                n += 1
+            for k, v in x.items():
+                if k == "p" and "l" in x:
+                    # index projections mention other locals
+                    for e in v:
+                        if isinstance(e, dict) and e.get("k") == "index" and e.get("l") == l:
+                            n += 1
+                    continue
+                walk(v)
+        elif isinstance(x, list):
+            for v in x:
+                walk(v)
+    for blk in body.blocks:
+        for st in blk["stmts"]:
+            if st.get("k") == "assign":
+                walk(st)
+        walk(blk["term"])
+    return n
 
 
 def rv_text(body, s):
